@@ -371,11 +371,14 @@ def check_C15(v, tier, rng):
         maxmul = (65536 - size) // size
         sd = size * rng.choice([0, 1, 2, maxmul, rng.randint(0, maxmul)])
         seed = rng.randint(1, 2 ** 40)
-        groups.append(dict(which='P.fft', count=size, len64=1, pos=0, size=size, trunc=trunc, sd=sd,
-                           data=prng_bytes(seed, size * 64), zero_tail=False, k=k))
+        # the transformed range sits inside a larger shard array (pos != 0) in half of the groups
+        pre = rng.choice([0, 0, 0, 1, 3, size, 2 * size])
+        post = rng.choice([0, 0, 1, size])
+        groups.append(dict(which='P.fft', count=pre + size + post, len64=1, pos=pre, size=size, trunc=trunc, sd=sd,
+                           data=prng_bytes(seed, (pre + size + post) * 64), zero_tail=False, k=k))
     cases = []
     for n, g in enumerate(groups):
-        for e in (['naive', 'nosimd', 'avx2'] if q else ENGINES):
+        for e in ENGINES:
             c = fft_case('l%d_%s' % (n, e), g, e)
             # inverse: ifft of the (full) fft output must return the input
             cases.append(c)
@@ -386,7 +389,7 @@ def check_C15(v, tier, rng):
     for n, g in enumerate(groups):
         lane = rng.randrange(32)
         lanes[n] = lane
-        coeffs = [g['data'][64 * i + lane] | (g['data'][64 * i + 32 + lane] << 8) for i in range(g['size'])]
+        coeffs = [g['data'][64 * (g['pos'] + i) + lane] | (g['data'][64 * (g['pos'] + i) + 32 + lane] << 8) for i in range(g['size'])]
         idxs = list(range(g['trunc'])) if g['trunc'] <= 16 else sorted(rng.sample(range(g['trunc']), 16))
         g['idxs'] = idxs
         qs.append('l%d lch %d %s %s' % (n, g['sd'], ','.join(map(str, idxs)), ','.join(map(str, coeffs))))
@@ -396,13 +399,13 @@ def check_C15(v, tier, rng):
         want = [int(x) for x in (orc.get('l%d' % n) or [''])[0].split(',') if x]
         v.evaluations += 1
         v.nontrivial.add(('fft', g['size'], g['trunc'], g['sd'], hashlib.md5(g['data']).hexdigest()))
-        v.count('fft-lch/size=2^%d/%s' % (g['k'], 'full' if g['trunc'] == g['size'] else 'trunc'))
-        for e in (['naive', 'nosimd', 'avx2'] if q else ENGINES):
+        v.count('fft-lch/size=2^%d/%s/%s' % (g['k'], 'full' if g['trunc'] == g['size'] else 'trunc', 'pos=0' if g['pos'] == 0 else 'pos>0'))
+        for e in ENGINES:
             r = (impl.get('l%d_%s' % (n, e)) or [None])[0]
             if not r or not r.startswith('ok '):
                 continue
             out = bytes.fromhex(r[3:])
-            got = [out[64 * i + lanes[n]] | (out[64 * i + 32 + lanes[n]] << 8) for i in g['idxs']]
+            got = [out[64 * (g['pos'] + i) + lanes[n]] | (out[64 * (g['pos'] + i) + 32 + lanes[n]] << 8) for i in g['idxs']]
             if got != want:
                 v.violation('fft on %s: output %s is not the value of the LCH-basis polynomial at point skew_delta+i (size=%d trunc=%d skew_delta=%d)'
                             % (e, [i for i, (x, y) in zip(g['idxs'], zip(got, want)) if x != y][:1], g['size'], g['trunc'], g['sd']),
